@@ -3,7 +3,9 @@
 Bounded-exhaustive over (a) templates: every error class x every evaluation stage at which it can
 surface x w x fjm version, and (b) every single-token deletion / duplication / substitution (by
 each token of a 40-token alphabet) of seed programs (with and without the stl), and (c) every sequence of
-<= 3 (thorough 4) primitive statements over a 16-statement alphabet (ops, pad, reserve, wflip, segment, label).
+<= 3 (thorough 4) primitive statements over a 16-statement alphabet (ops, pad, reserve, wflip, segment, label), and
+(d) 45 sources with malformed / valid tokens after runs of 30 / 60 / 120 plain characters, each assembled in its own child
+process that is killed after 20 s (a stall inside C code - a regular expression - cannot be interrupted from within).
 Oracle: the outcome is success or a FlipJumpException subclass whose message is not the generic
 "Unknown exception ... please report this bug" (and, for templates, names the offending
 construct); it finishes under the watchdog; after a failure the output path does not exist or
@@ -182,6 +184,35 @@ def statement_programs(depth):
             yield seq, 'L:\n  ;L\n' + ''.join(STATEMENTS[i] + '\n' for i in seq)
 
 
+# ------------------------------------------------------------------ (d) long tokens (each source in its own child process, killed after 20 s)
+def long_token_sources():
+    """(name, text, must_fail): malformed / valid tokens after a long run of plain characters; time must stay linear-ish"""
+    S = []
+    for n in (30, 60, 120):
+        run = 'abcdefghij' * (n // 10)
+        S += [(f'string-unterminated-{n}', f';"{run}\n', True), (f'string-bad-escape-{n}', f';"{run}\\q"\n', True),
+              (f'string-non-ascii-{n}', f';"{run}\u00e9"\n', True), (f'string-control-char-{n}', f';"{run}\x01"\n', True),
+              (f'string-escapes-then-unterminated-{n}', ';"' + '\\n' * (n // 2) + '\n', True),
+              (f'string-valid-{n}', f';"{run}" & 1\n', False),
+              (f'char-unterminated-{n}', f";'{run}\n", True),
+              (f'identifier-{n}', f'{run}:\n;{run}\n', False), (f'identifier-bad-tail-{n}', f';{run}`\n', True),
+              (f'hex-number-bad-tail-{n}', ';0x' + 'f' * n + 'g\n', True), (f'hex-number-{n}', ';0x' + 'f' * n + ' & 1\n', False),
+              (f'dots-{n}', ';' + '.' * n + 'x\n', True), (f'comment-{n}', f';  // {run} " \' \\q\n', False),
+              (f'parens-unclosed-{n}', ';' + '(' * n + '1\n', True), (f'minus-chain-{n}', ';' + '-' * n + '1 & 1\n', False)]
+    return S
+
+
+def work_long_token(task):
+    from fjv.enginecheck import scratch
+    _, idx = task
+    name, text, must_fail = long_token_sources()[idx]
+    sieve = Sieve(PROP, MATCHERS)
+    stats = {'runs': 0}
+    res = run_source(text, 64, 1, False, False, scratch())
+    judge(res, {'name': 'long-token ' + name, 'text': text, 'w': 64, 'version': 1, 'stl': False, 'werror': False, 'long_token_index': idx}, must_fail or None, None, sieve, stats)
+    return stats, sieve.result(), None, 1
+
+
 # ------------------------------------------------------------------ running one source
 def run_source(text, w, version, use_stl, werror, wd, special=None):
     """-> dict(outcome, exc, msg, leftover)"""
@@ -276,6 +307,8 @@ def judge(res, case, must_fail, needle, sieve, stats):
 def work(task):
     from fjv.enginecheck import scratch
     kind = task[0]
+    if kind == 'long-token':
+        return work_long_token(task)
     sieve = Sieve(PROP, MATCHERS)
     stats = {'runs': 0}
     wd = scratch()
@@ -364,6 +397,15 @@ def replay(args):
     install_watchdog()
     rec = load_replay(args.replay)
     c = rec['case']
+    if 'long_token_index' in c:
+        from fjv.runner import Crash
+        item = list(pmap(work, [('long-token', c['long_token_index'])], 1, on_crash='yield', task_timeout=20))[0]
+        if isinstance(item, Crash) or item[1][0]:
+            print('PROBLEM', 'no result within 20 s' if isinstance(item, Crash) else item[1][0][0]['summary'])
+            print(f'VIOLATION property={PROP} replay={args.replay}')
+            return 1
+        print('replay: ok')
+        return 0
     res = run_source(c.get('text', ''), c['w'], c['version'], c.get('stl', False), c.get('werror', False), scratch(), special=c.get('special'))
     print(c.get('text', ''))
     print('outcome:', {k: (v[:300] if isinstance(v, str) else v) for k, v in res.items()})
@@ -396,6 +438,24 @@ def main():
         distinct += d
         if sample and len(samples) < 4:
             samples.append(sample)
+    # long tokens: one killable child per source - a lexer / parser that stalls inside C code cannot be interrupted from within
+    from fjv.runner import Crash
+    if not args.only or args.only == 'long-token':
+        lt = long_token_sources()
+        for idx, item in enumerate(pmap(work, [('long-token', i) for i in range(len(lt))], args.jobs, on_crash='yield', task_timeout=20)):
+            if isinstance(item, Crash):
+                name, text, _ = lt[idx]
+                total['runs'] = total.get('runs', 0) + 1
+                total['hang'] = total.get('hang', 0) + 1
+                run.report({'kind': 'assembly does not finish (or the process died)', 'class': 'hang: long token', 'case': {'name': 'long-token ' + name, 'text': text, 'w': 64,
+                            'version': 1, 'long_token_index': idx}, 'expected': 'success or a diagnostic within 20 s', 'observed': str(getattr(item, 'note', None) or item)[:200],
+                            'summary': f'long-token {name}: no result within 20 s (child killed)'})
+                continue
+            stats, res, sample, d = item
+            for k, v in stats.items():
+                total[k] = total.get(k, 0) + v
+            run.merge(res)
+            distinct += d
     vac = [k for k in ('diagnostic', 'success') if not total.get(k)]
     if vac:
         print(f'CHECK-INTERNAL-ERROR vacuous: no run ended in {vac}', file=sys.stderr)
